@@ -77,6 +77,9 @@ func runC03(c *Ctx) {
 	if c.Thorough() {
 		ntypes = 30000
 	}
+	if !c.IsWorker() {
+		FieldMatrix(func(t reflect.Type, v reflect.Value) { c03Check(c, v.Interface(), t) })
+	}
 	c.RunCases("values", ntypes, func(c *Ctx, k int, rng *rand.Rand) {
 		g := &Gen{R: rng}
 		t := g.Type(1 + rng.Intn(4))
